@@ -91,6 +91,17 @@ func Derivation(t *rapid.T, c *model.Value, labels *[]string) *ref.E {
 			}
 			return &ref.E{Op: "collect", A: []*ref.E{{Op: "splat"}}}
 		}
+		if c.K == model.Map && len(c.Keys) > 0 && rapid.IntRange(0, 3).Draw(t, "mapshared") == 0 {
+			// a sum of two maps that share a key: the entry of the result comes from the right operand
+			if k := rapid.SampledFrom(c.Keys).Draw(t, "msk"); SafeStr(k) {
+				*labels = append(*labels, "f:map_plus_shared_key")
+				obj := &ref.E{Op: "object", KS: []string{k, "zz"}, A: []*ref.E{Lit(model.NewInt(7)), Lit(model.NewInt(8))}}
+				if rapid.Bool().Draw(t, "msfront") {
+					return &ref.E{Op: "bin", S: "+", A: []*ref.E{obj, {Op: "self"}}}
+				}
+				return &ref.E{Op: "bin", S: "+", A: []*ref.E{{Op: "self"}, obj}}
+			}
+		}
 		if rapid.IntRange(0, 3).Draw(t, "mapd") == 0 {
 			*labels = append(*labels, "f:map_plus")
 			return &ref.E{Op: "bin", S: "+", A: []*ref.E{{Op: "self"}, {Op: "object", KS: []string{"zz"}, A: []*ref.E{Lit(model.NewInt(7))}}}}
